@@ -20,6 +20,7 @@ RETHROW = {"JR", "JRF", "FCV"}        # new *Exception (new stack), same value
 REWRAP = {"RFW"}                      # value replaced by a GoError around fmt.Errorf("%w", err)
 SPLIT = {"PR", "JAW"}                 # the rest of the chain runs as a promise job
 ENTRIES = ["RS", "CA", "EX"]
+ALL_ENTRIES = ["RS", "CA", "EX", "CO", "TR"]   # CO: AssertConstructor (model: callable); TR: Runtime.Try around Object.Get
 VALS = "P1 P2 P3 P4 O1 R1 R2 R3 G1 G3 G4 G6 V1 V2 U1 U2".split()
 # U3 (toString interrupts the runtime) is exercised by corpus lines only: any frame that stringifies the error
 # (fmt.Errorf in RFW) would legitimately trigger that interrupt in the middle of the chain
@@ -109,6 +110,26 @@ def spec_oracle(line, out):
             bad.append((why + ":finally-observed", str(fins[:5])))
         if any(i > lim for i in rets):
             bad.append((why + ":iterator-return-observed", str(rets[:5])))
+
+    if entry == "TR":
+        # Runtime.Try as the host's entry: vm.try + a recover that RE-PANICS what is not a JS exception, and no leave():
+        # an uncatchable error leaves Try as a Go panic carrying it; promise jobs never run
+        if has_pr:
+            if host != "ok" or d["rejl"] or catches or rets:
+                bad.append(("try-entry:jobs-ran", "host=%s rej=%s log=%s" % (host, d["rejl"], d["logl"][:4])))
+            return bad
+        unc = None
+        if kind == "ji":
+            unc = "intr(E9)"
+        elif kind == "jo":
+            unc = "so"
+        elif kind in ("nr", "nq") and arg in UNCATCHABLE_SPEC:
+            unc = arg
+        if unc is not None:
+            unobserved("uncatchable")
+            if (kind == "ji" or not dropped) and not (host.startswith("panic(goerr(") and peel(host[len("panic(goerr("):-2]) == unc):
+                bad.append(("try-entry:uncatchable-not-repanicked", "host=%s want panic(goerr(%s))" % (host, unc)))
+            return bad
 
     if kind in ("jt", "np"):
         v = arg
@@ -245,7 +266,7 @@ def gen_cases(ctx):
                 p = rng.choice(PAYLOADS)
                 if excluded(p, ch):
                     p = "jo"
-                yield "%s %s %s" % (rng.choice(ENTRIES), p, ",".join(ch))
+                yield "%s %s %s" % (rng.choice(ALL_ENTRIES), p, ",".join(ch))
         plan[tag] = n
         parts.append(it())
 
@@ -255,10 +276,12 @@ def gen_cases(ctx):
         exhaustive([2], ["CA", "EX"], ENTRY_REP, "exhaustive depth=2 x CA,EX x %d representative payloads" % len(ENTRY_REP))
         exhaustive([3], ["RS"], QUICK_REP, "exhaustive depth=3 x RS x %d representative payloads" % len(QUICK_REP))
         exhaustive(range(0, 2), ["CO"], PAYLOADS, "exhaustive depth<=1 x AssertConstructor entry x %d payloads" % len(PAYLOADS))
+        exhaustive(range(0, 2), ["TR"], PAYLOADS, "exhaustive depth<=1 x Runtime.Try entry x %d payloads" % len(PAYLOADS))
+        exhaustive([2], ["TR"], ENTRY_REP, "exhaustive depth=2 x Runtime.Try entry x %d representative payloads" % len(ENTRY_REP))
         sampled(10000, 4, 8, "sampled depth 4..8 (all entries, all payloads)")
     else:
         exhaustive(range(0, 3), ENTRIES, PAYLOADS, "exhaustive depth<=2 x 3 entries x %d payloads" % len(PAYLOADS))
-        exhaustive(range(0, 3), ["CO"], PAYLOADS, "exhaustive depth<=2 x AssertConstructor entry x %d payloads" % len(PAYLOADS))
+        exhaustive(range(0, 3), ["CO", "TR"], PAYLOADS, "exhaustive depth<=2 x AssertConstructor, Runtime.Try entries x %d payloads" % len(PAYLOADS))
         exhaustive([3], ["RS"], PAYLOADS, "exhaustive depth=3 x RS x %d payloads" % len(PAYLOADS))
         exhaustive([4], ["RS"], THOROUGH_REP, "exhaustive depth=4 x RS x %d representative payloads" % len(THOROUGH_REP))
         sampled(150000, 5, 8, "sampled depth 5..8 (all entries, all payloads)")
@@ -346,8 +369,8 @@ def main(ctx):
     ctx.log("regenerated facts:", regen_ok)
     lean_ok, errs = ctx.lake_build(["GojaModel.C14.Props", "GojaModel.C14.Tie", "model_c14"])
     if lean_ok:
-        ctx.audit("GojaModel.C14.Props", expect_min=25)
-        ctx.audit("GojaModel.C14.Tie", expect_min=50)
+        ctx.audit("GojaModel.C14.Props", expect_min=29)
+        ctx.audit("GojaModel.C14.Tie", expect_min=57)
         if ctx.tier == "thorough":
             ctx.leanchecker("GojaModel.C14.Props")
     ctx.log("lean build + audit done:", lean_ok)
